@@ -28,7 +28,8 @@ def run(ctx):
     rule_V2(ctx)      # the closed-form volumes, as exact algebra
     from ..initrules import rule_I2
     rule_I2(ctx)      # counters and cache start from zero in compute() and reset()
-    rule_K2(ctx)      # a cached volume is invalidated by every counter update (serial and pool)
+    rule_K2(ctx, classes={'Union', 'NautilusBound', 'Ellipsoid', 'UnitCubeEllipsoidMixture',
+                          'NeuralBound', 'UnitCube'})      # a cached volume is invalidated by every counter update (serial and pool)
     for q in ('Union.split', 'Union.trim'):     # counters restart when the member set changes
         fq = prog.func(q)
         rule_T9(ctx, fq, ExpandingTracker(fq, G_UNION.members + ['log_v_all'],
